@@ -168,14 +168,18 @@ def in_region_a(toks) -> bool:
 
 
 def in_region_b(toks) -> bool:
-    """outside parentheses: a line break immediately before `&&`  (`A <line break> && B`)"""
+    """outside parentheses: a line break immediately before an `&&` that is not preceded by an `||` outside
+    parentheses  (`A <line break> && B`; not `A || B <line break> && C`, which ends at the line break as documented)"""
     depth = 0
+    seen_or = False
     for i, t in enumerate(toks):
         if t == '(':
             depth += 1
         elif t == ')':
             depth = max(0, depth - 1)
-        elif t == '&&' and depth == 0 and i > 0 and toks[i - 1] == NL:
+        elif t == '||' and depth == 0:
+            seen_or = True
+        elif t == '&&' and depth == 0 and not seen_or and i > 0 and toks[i - 1] == NL:
             return True
     return False
 
@@ -390,7 +394,7 @@ def _stage1(case):
        classes = one (sdv, expected tree, example source) per distinct (complete state of the parser's result, expected tree)."""
     from harness import _C06_real as X
     with X.concrete():
-        key = repr(sorted(case.items(), key=lambda kv: kv[0]))
+        key = repr(sorted(case.items(), key=lambda kv: kv[0])) + repr((ob.excluded(REGION_A), ob.excluded(REGION_B)))
         if key not in _STAGE1:
             _STAGE1[key] = _stage1_compute(case)
         return _STAGE1[key]
@@ -625,11 +629,12 @@ def _k2_obligations(tier) -> List[Ob]:
     else:
         for f in K2_ALPHABET_M:
             for g in K2_ALPHABET_M:
-                if f != '(':
+                if f not in ('(', 'A', '!'):
                     add('integer', (f, g), 7, 600)
         add('integer', ('A', 'A'), 7, 300, shorter=True)
-        for g in K2_ALPHABET_M:  # the longest strings where layout matters most: inside parentheses
-            add('integer', ('(', g), 8, 1800)
+        for f in ('(', 'A', '!'):  # the longest strings: after an opening parenthesis, an operand, a negation
+            for g in K2_ALPHABET_M:
+                add('integer', (f, g), 8, 1800)
         for host in ('line', 'string', 'file', 'files'):
             for f in K2_ALPHABET_M:
                 add(host, (f,), 6, 600)
@@ -724,8 +729,8 @@ def _k1_obligations(tier) -> List[Ob]:
     C = (STUB_LEAF, STUB_INT)
     sets2 = [('== K0', '!= K1'), ('< K0', '<= K1'), ('> K0', '>= K1'), ('constant true', '== K0'), ('A', 'constant false')]
     sets3 = [('== K0', '> K1', '<= K2'), ('!= K0', 'A', '< K1'), ('constant true', '>= K0', 'B')]
-    add('K1c', 'integer', 'n2', 'k_int', dict(leaves=sets2, depth=3, wrappers=2), dict(nl=2 if thorough else 1, lead=True),
-        1200, extra_real=REAL_INT, stubs=C, nparts=4)
+    add('K1c', 'integer', 'n2', 'k_int', dict(leaves=sets2, depth=3, wrappers=2 if thorough else 1),
+        dict(nl=2 if thorough else 1, lead=True), 1200, extra_real=REAL_INT, stubs=C, nparts=4 if thorough else 1)
     for i, ls in enumerate(sets3 if thorough else sets3[:2]):
         add('K1c', 'integer', 'n3:%d' % i, 'k_int', dict(leaves=[ls], depth=3, wrappers=2 if thorough else 1),
             dict(nl=1), 3000 if thorough else 1200, extra_real=REAL_INT, stubs=C, nparts=4 if thorough else 1)
@@ -845,6 +850,7 @@ def selftest(tier: str) -> int:
         assert in_region_b(toks) and not in_region_a(toks)
     assert not in_region_a(('(', 'A', NL, '&&', 'B', ')')) and not in_region_a(('(', 'A', '||', 'B', '&&', NL, 'A', ')'))
     assert not in_region_b(('(', 'A', NL, '&&', 'B', ')')) and not in_region_b(('A', '&&', NL, 'B'))
+    assert not in_region_b(('A', '||', 'B', NL, '&&', 'A'))
     n += 8
     return n
 
